@@ -8,8 +8,9 @@ Same semantics as `oracles.iso.embeddings` (which enumerates every injective ass
   * optional scope: every image lies in `scope`.
 The only difference to the brute force is that a partial assignment that already breaks one of the (pairwise) conditions is not
 extended - every condition is a conjunction over atoms / pairs of atoms, so pruning loses nothing.  Nothing of the library's
-search code is used: components are computed here, candidates are tried in plain target order, the pattern atoms in plain
-insertion order (no DFS order, no back references, no closure sets).  `checks/b07.py` cross-checks this enumerator against
+search code is used: components are computed here, candidates are tried in plain target order, the pattern atoms breadth-first
+from the first atom of each component (only so that pruning bites early; no back references, no closure sets: every
+condition is re-tested against ALL atoms assigned so far).  `checks/b07.py` cross-checks this enumerator against
 `oracles.iso.embeddings` on every small pair it visits.
 """
 
@@ -33,12 +34,29 @@ def components(bonds):
     return comp
 
 
+def bfs_order(bonds):
+    order, seen = [], set()
+    for s in bonds:
+        if s in seen:
+            continue
+        seen.add(s)
+        q = [s]
+        while q:
+            x = q.pop(0)
+            order.append(x)
+            for y in bonds[x]:
+                if y not in seen:
+                    seen.add(y)
+                    q.append(y)
+    return order
+
+
 def embeddings(p, t, scope=None, limit=None):
     """set of embeddings, each a sorted tuple of (pattern atom, target atom) pairs"""
     pa, pb = p._atoms, p._bonds
     ta, tb = t._atoms, t._bonds
     pcomp, tcomp = components(pb), components(tb)
-    order = list(pa)
+    order = bfs_order(pb)
     tnums = [n for n in ta if scope is None or n in scope]
     cand = {n: [c for c in tnums if pa[n] == ta[c]] for n in order}
     out = set()
@@ -76,6 +94,36 @@ def embeddings(p, t, scope=None, limit=None):
             used.discard(c)
 
     rec(0)
+    return out
+
+
+def brute_embeddings(p, t):
+    """oracles.iso.embeddings verbatim (every injective assignment tested), except that components come from the flood fill above:
+    QueryContainer has no `connected_components`.  Only used to cross-check `embeddings` on small pairs."""
+    import itertools
+    pa, ta = list(p._atoms), list(t._atoms)
+    pcomp, tcomp = components(p._bonds), components(t._bonds)
+    out = set()
+    for img in itertools.permutations(ta, len(pa)):
+        mp = dict(zip(pa, img))
+        if any(not (p._atoms[n] == t._atoms[mp[n]]) for n in pa):
+            continue
+        ok = True
+        for n, m in itertools.combinations(pa, 2):
+            pb = p._bonds[n].get(m)
+            tb = t._bonds[mp[n]].get(mp[m])
+            if pb is not None:
+                if tb is None or not (pb == tb):
+                    ok = False
+                    break
+            elif tb is not None and pcomp[n] == pcomp[m]:
+                ok = False
+                break
+            if pcomp[n] != pcomp[m] and tcomp[mp[n]] == tcomp[mp[m]]:
+                ok = False
+                break
+        if ok:
+            out.add(tuple(sorted(mp.items())))
     return out
 
 
